@@ -58,6 +58,7 @@ type c16Case struct {
 	names   []string
 	domains []string // [""] for plain
 	perms   [][]string
+	hist    []string // history mode: the rbac_api calls that led to this state (replay only)
 }
 
 func c16Enforcer(kind string) *casbin.Enforcer {
@@ -225,9 +226,14 @@ func (cs *c16Case) body() string {
 	for i, p := range cs.policy {
 		pol[i] = QL(p)
 	}
-	return fmt.Sprintf("%s (links %s) (policy %s) (names %s) (domains %s) (perms %s)", cs.kind,
+	s := fmt.Sprintf("%s (links %s) (policy %s) (names %s) (domains %s) (perms %s)", cs.kind,
 		strings.Join(ls, " "), strings.Join(pol, " "), strings.Join(c16MapQ(cs.names), " "),
 		strings.Join(c16MapQ(cs.domains), " "), strings.Join(ps, " "))
+	if len(cs.hist) > 0 {
+		// the model is a function of the listed rules; the history is carried for the replay only
+		s += " (hist " + strings.Join(c16MapQ(cs.hist), " ") + ")"
+	}
+	return s
 }
 
 func c16MapQ(ss []string) []string {
@@ -238,11 +244,16 @@ func c16MapQ(ss []string) []string {
 	return out
 }
 
-// c16Run: one case — observables + the property's own predicate on the implementation.
+// c16Run: one case on a freshly built enforcer.
 func c16Run(c *Ctx, id string, gen string, cs *c16Case) {
+	c16Observe(c, id, gen, cs, c16Build(cs))
+}
+
+// c16Observe: observables + the property's own predicate on the enforcer e, whose listed
+// grouping rules / policy rules are cs.links / cs.policy (however e reached that state).
+func c16Observe(c *Ctx, id string, gen string, cs *c16Case, e *casbin.Enforcer) {
 	c.Case(id, cs.body())
 	c.Count(gen)
-	e := c16Build(cs)
 	rm := e.GetRoleManager()
 	replay := cs.body()
 	perUD := func(f func(u, d string) string) string {
